@@ -149,6 +149,17 @@ func (g *Engine) registerIntrinsics() {
 		e.check(a[0].(*Term), "assert", label, pos)
 		return nil
 	})
+	// vxAllocs(f): runs f and returns the number of heap-allocation events it raised (see alloc.go)
+	vx("vxAllocs", func(e *Exec, a []Value, pos token.Pos) Value {
+		if e.eng.esc == nil {
+			e.unsupported("vxAllocs needs the compiler's escape analysis (-escapes)")
+		}
+		n0 := len(e.allocEvents)
+		e.allocWatch++
+		e.callValue(a[0], nil, pos)
+		e.allocWatch--
+		return e.tb.K(64, uint64(len(e.allocEvents)-n0))
+	})
 	vx("vxReach", func(e *Exec, a []Value, pos token.Pos) Value {
 		e.reach[e.argStr(a[0])] = true
 		return nil
